@@ -19,12 +19,14 @@ def kmip_version(ver):
             (2, 0): enums.KMIPVersion.KMIP_2_0}[tuple(ver)]
 
 
-def make_client(responder, ver=(1, 2)):
-    """responder(frame) -> response bytes. Returns (client, socket)."""
+def make_client(responder, ver=(1, 2), **kw):
+    """responder(frame) -> response bytes. Returns (client, socket). Extra
+    keyword arguments (config_file, config, username, password ...) go to
+    the ProxyKmipClient constructor."""
     kernel.install()
     from kmip.pie.client import ProxyKmipClient
     from kmip.services.kmip_protocol import KMIPProtocol
-    c = ProxyKmipClient(kmip_version=kmip_version(ver))
+    c = ProxyKmipClient(kmip_version=kmip_version(ver), **kw)
     sock = net.ClientSocket(responder)
     c.proxy.socket = sock
     c.proxy.protocol = KMIPProtocol(sock)
@@ -32,8 +34,8 @@ def make_client(responder, ver=(1, 2)):
     return c, sock
 
 
-def world_client(world, actor, ver=(1, 2), server_chunks=None):
+def world_client(world, actor, ver=(1, 2), server_chunks=None, **kw):
     def responder(frame):
         sent = world.send_raw(actor, frame, server_chunks)
         return b''.join(sent)
-    return make_client(responder, ver)
+    return make_client(responder, ver, **kw)
